@@ -3,6 +3,8 @@ C13 line-protocol driver.  One case = one admin handler + one request:
 
   req  <side> <addr> <origins> <eo> <acl> <pats> <idx> <method> <host> <path> <upg> <origin> <referer> <tls>
   load <side> <addr> …same fields…     the same case driven through caddy.Load of a JSON config
+  cf   <args> <block>                  the Caddyfile `admin` global option: args = . | hex,hex…  block = ~ (none) |
+                                       . (empty) | line;line… (line = hex,hex…) → `ok <disabled> <listen> <eo> <origins>` | `err`
 
   side     L | R                                  local / remote endpoint (newAdminHandler's `remote`)
   addr     listen:ipclass                         listen = the configured `admin.listen` / `remote.listen`
@@ -28,6 +30,7 @@ Answer:  <final> <path> <cors> <hits>     final = refused:<why> | handled:<patte
          not canonicalise CONNECT —, POST that can end at /stop, which exits the process).
 -/
 import CaddyModel.C13.Listen
+import CaddyModel.C13.Caddyfile
 
 namespace CaddyModel.C13
 
@@ -114,7 +117,13 @@ def safeByte (b : UInt8) : Bool :=
 
 def alpha (b : UInt8) : Bool := (65 ≤ b && b ≤ 90) || (97 ≤ b && b ≤ 122)
 
-def validPat (p : Bytes) : Bool := p.all safeByte && isCleanPath p && !builtinPats.contains p
+/-- routes of the real admin.api modules linked into the harness binary (caddyconfig: /load, /adapt;
+    caddypki: /pki/) — registered next to the probe routes;
+    the harness checks this list against `caddy.GetModules("admin.api")` at start-up -/
+def linkedModulePats : List Bytes := [str "/adapt", str "/load", str "/pki/"]
+
+def validPat (p : Bytes) : Bool :=
+  p.all safeByte && isCleanPath p && !builtinPats.contains p && !linkedModulePats.contains p
 
 def distinct : List Bytes → Bool
   | [] => true
@@ -136,7 +145,8 @@ def showFinal : Final → String
   | .panic => "panic" | .fuel => "model-out-of-fuel"
 
 /-- the driver's handler effect: the state is the hit counter of the probe module's routes -/
-def probeHits (pat : Bytes) (_ : Req) (s : Nat) : Nat := if builtinPats.contains pat then s else s + 1
+def probeHits (pat : Bytes) (_ : Req) (s : Nat) : Nat :=
+  if builtinPats.contains pat || pat == str "/adapt" || pat == str "/load" || pat == str "/pki/" then s else s + 1
 
 /-- what the `load` op can bind from inside the harness: loopback / wildcard TCP on an ephemeral
     port, or a unix socket `c13-load…` in the (private) working directory -/
@@ -180,7 +190,7 @@ def handleReq (load : Bool) : List String → String
                 else if load && !loadable network ahost port then "bad-op"
                 else if load && side == "R" && acl.isNone then "bad-op"
                 else
-                  let hd := newAdminHandler ⟨os, eo, acl⟩ ⟨network, ahost, port, ip⟩ (side == "R") pats
+                  let hd := newAdminHandler ⟨os, eo, acl⟩ ⟨network, ahost, port, ip⟩ (side == "R") (pats ++ linkedModulePats)
                   let r : Req := ⟨m, h, p, up, o, rf, ou, ru, tls⟩
                   let res := serveReal probeHits hd idx (maxHops + 1) r 0
                   s!"{showFinal res.final} {Hex.encode res.path} {res.cors} {res.state}"
@@ -188,9 +198,37 @@ def handleReq (load : Bool) : List String → String
     | _, _, _, _, _, _ => "bad-op"
   | _ => "bad-op"
 
+def sImport : Bytes := str "import"
+
+def cfTokenOK (t : Bytes) : Bool :=
+  !t.isEmpty && t != sImport &&
+  t.all (fun b => (48 ≤ b && b ≤ 58) || (65 ≤ b && b ≤ 90) || (97 ≤ b && b ≤ 122) || b == 46 || b == 95 || b == 47 || b == 45)
+
+def parseCfBlock (s : String) : Option (Option (List (List Bytes))) :=
+  if s == "~" then some none
+  else if s == "." then some (some [])
+  else ((s.splitOn ";").mapM fun (l : String) => (l.splitOn ",").mapM Hex.decode).map some
+
+/-- `cf <args> <block>`: the Caddyfile `admin` global option → the AdminConfig it produces -/
+def handleCf : List String → String
+  | [args, block] =>
+    match decList args ",", parseCfBlock block with
+    | some args, some block =>
+      if !args.all cfTokenOK || !(match block with | some ls => ls.all (fun l => !l.isEmpty && l.all cfTokenOK) | none => true) then "bad-op"
+      else match parseOptAdmin defaultLocalListen args block with
+        | none => "err"
+        | some a =>
+          let os := match a.origins with
+            | none => "~"
+            | some l => ",".intercalate (l.map Hex.encode)
+          s!"ok {if a.disabled then 1 else 0} {Hex.encode a.listen} {if a.enforceOrigin then 1 else 0} {os}"
+    | _, _ => "bad-op"
+  | _ => "bad-op"
+
 def handle : List String → String
   | "req" :: rest => handleReq false rest
   | "load" :: rest => handleReq true rest
+  | "cf" :: rest => handleCf rest
   | _ => "bad-op"
 
 end CaddyModel.C13
